@@ -977,6 +977,15 @@ def enc_field(crate, adt_suffix):
     """name of the field of a struct that holds the optional compression of a message (by type, see enc_opt_pat)"""
     ad = crate.adt(adt_suffix)
     fs = [f['n'] for f in ad['variants'][0]['fields'] if re.search(enc_opt_pat(crate), f['ty'])]
+    if not fs:
+        # bundled one level down (`framing: Framing { compression_encoding, max_message_size }`): the member's own name
+        for f in ad['variants'][0]['fields']:
+            try:
+                sub = crate.adt(re.sub(r'<.*$', '', f['ty']))
+            except CheckError:
+                continue
+            if sub.get('kind') == 'struct':
+                fs += [g['n'] for g in sub['variants'][0]['fields'] if re.search(enc_opt_pat(crate), g['ty'])]
     if len(fs) != 1:
         raise CheckError('UNRECOGNISED: %s has %d fields holding an optional compression encoding' % (adt_suffix, len(fs)))
     return fs[0]
